@@ -210,6 +210,54 @@ def run(rep, tier="quick", replay=None, evidence_dir=None):
                 n6 += 1
                 rep.ob("C07.R6", "[%s] %s" % (o["rule"], o["instance"]), o["ok"], o["detail"], o["loc"])
     rep.floor("C07.R6", "imported rollback obligations", n6, 8)
+    # ---------------- R7 a bare value is matched to a union branch by the same base kind the branch is registered under
+    rep.rule("C07.R7", "the base kind a bare value is looked up under in a union (value_to_base_schemakind) is the base kind under which the branch that represents it is registered (schema_to_base_schemakind)")
+    from vpes import top_shapes
+    vb = prog.bodies.get("schema::union::UnionSchema::value_to_base_schemakind")
+    sb = prog.bodies.get("schema::union::schema_to_base_schemakind")
+    if vb is None or sb is None:
+        rep.anchor_error("C07.R7", "value_to_base_schemakind / schema_to_base_schemakind")
+    else:
+        wv = T["wire"]
+
+        def kinds_of(body, root_adt_is_value):
+            vp_ = wv.vpes(body)
+            out = {}
+            for s_, reg in top_shapes(vp_, 1):
+                ks = set()
+                for x in reg:
+                    for st in body.blocks[x]["stmts"]:
+                        if st["s"] != "assign":
+                            continue
+                        rv = st["rv"]
+                        if rv["r"] == "agg" and rv.get("adt") == "schema::SchemaKind" and rv.get("variant"):
+                            ks.add(rv["variant"])
+                            continue
+                        ops_ = [rv["o"]] if rv["r"] == "use" else (rv.get("ops", []) if rv["r"] == "agg" else [])
+                        for o in ops_:
+                            if isinstance(o, dict) and o.get("k") in ("copy", "move") and not o["pl"]["p"] and (body.local_ty(o["pl"]["l"]) or "") == "schema::SchemaKind" and body.local_name(o["pl"]["l"]):
+                                ks.add("<itself>")
+                out[vp_.shape_name(s_, 1)] = ks
+            return out
+        vk = kinds_of(vb, True)
+        sk = kinds_of(sb, False)
+        n7 = 0
+        for V, ks in sorted(vk.items()):
+            shapes = [S for S in dec if V in (dec[S].get("values_ok") or [])]
+            if not shapes:
+                continue
+            allowed_k = set()
+            for S in shapes:
+                for k_ in sk.get(S, sk.get(S.split("(")[0], set())):
+                    allowed_k.add(S.split("(")[0] if k_ == "<itself>" else k_)
+            # a map value may stand for a record (JSON objects become maps): the library documents that extra lookup
+            if V == "Map":
+                allowed_k.add("Record")
+            mine = set(V if k_ == "<itself>" else k_ for k_ in ks)
+            n7 += 1
+            rep.ob("C07.R7", "a bare Value::%s is looked up under %s, the kind its branch is registered under" % (V, "/".join(sorted(mine)) or "?"), bool(mine) and mine <= allowed_k,
+                   "a bare Value::%s is matched to the union branch of kind %s, branches that represent it (%s) are registered under %s: validation accepts the value for the wrong branch and the writers emit that branch's index with this value's bytes" % (V, sorted(mine), shapes, sorted(allowed_k)), vb.loc())
+        rep.floor("C07.R7", "value variants compared", n7, 25)
     rep.floor("C07", "obligations", len(rep.obligations), 100)
     rep.not_decided = ["that the bytes decode to the value's canonical representation for concrete values (union branch chosen, widened number)", "(Map, Record) - see known findings"]
     return common.finish(rep, level="other",
